@@ -1219,32 +1219,17 @@ func (c *compiler) evalIndexCallee(rv reflect.Value, node *ast.IndexExpression) 
 		c.ctx.Set(k, v)
 	}
 
-	//The key here is needed to set the object in ctx for later evaluation
-	//For example, if this is a nested object person.Name[0]
-	//then we can set the value of Name[0] to person.Name
-	//As the evalIdent will look for that object by person.Name
-	//If key doesn't contain "." this means we got person[0].Name[0]
-	//If key does contain "." then indexed field that needs to be accessed will be set in Node.left and Node.Callee
-	key := node.Left.String()
-	if strings.Contains(key, ".") {
-		ggg := strings.Split(key, ".")
-		callee := node.Callee.String()
-
-		if !strings.Contains(callee, key) {
-			for {
-				if len(ggg) >= 2 {
-					ggg = ggg[1:]
-				} else {
-					key = ggg[0]
-					break
-				}
-
-				if strings.Contains(callee, strings.Join(ggg, ".")) {
-					key = strings.Join(ggg, ".")
-					break
-				}
-			}
-		}
+	// The member expression after the index (node.Callee) starts, at the root
+	// of its callee chain, with an identifier the parser made up to stand
+	// for the indexed element: "person.Names" in person.Names[0].First, or
+	// "Names" when this is an inner level of person.Teams[1].Names[0].First.
+	// Bind the element under exactly that name, so that evaluating the member
+	// expression finds it. (The name used to be guessed by comparing the
+	// printed forms of the two sides, which went wrong for method calls and
+	// when one member name contained another.)
+	key, ok := calleeRootName(node.Callee)
+	if !ok {
+		key = node.Left.String()
 	}
 
 	c.ctx.Set(key, rv.Interface())
@@ -1255,6 +1240,29 @@ func (c *compiler) evalIndexCallee(rv reflect.Value, node *ast.IndexExpression) 
 	}
 
 	return vvs, nil
+}
+
+// calleeRootName finds the identifier at the root of the callee chain of a
+// member expression.
+func calleeRootName(e ast.Expression) (string, bool) {
+	switch t := e.(type) {
+	case *ast.Identifier:
+		if t == nil {
+			return "", false
+		}
+		for t.Callee != nil {
+			t = t.Callee
+		}
+		return t.Value, true
+	case *ast.IndexExpression:
+		return calleeRootName(t.Left)
+	case *ast.CallExpression:
+		if t.Callee != nil {
+			return calleeRootName(t.Callee)
+		}
+		return calleeRootName(t.Function)
+	}
+	return "", false
 }
 
 func unsafeGetBytes(s string) []byte {
